@@ -181,6 +181,9 @@ type lpCase struct {
 	ops      []*lpOp
 	// ops generated lazily after sends: a function that produces RECV ops from the frames captured so far
 	after func(c *lpCase, r *rand.Rand) []*lpOp
+	// order of the RECV ops produced by after: "message.frame" items (written to the trace as an ORDER line so that a
+	// replay regenerates the frames from the current sender instead of re-feeding recorded bytes)
+	order []string
 }
 
 func patternWire(n int) []byte {
@@ -311,6 +314,9 @@ func runLpCase(w *bufio.Writer, c *lpCase, r *rand.Rand) {
 		if k == len(ops)-1 && c.after != nil {
 			more := c.after(c, r)
 			c.after = nil
+			if len(c.order) > 0 {
+				fmt.Fprintf(w, "ORDER %s\n", strings.Join(c.order, " "))
+			}
 			ops = append(ops, more...)
 		}
 	}
@@ -471,7 +477,8 @@ func genPermCase(r *rand.Rand, idx int, thorough bool) *lpCase {
 		seq += 400 // more than any packet needs (<= 275 fragments); wraps like the real counter
 	}
 	c.after = func(c *lpCase, r *rand.Rand) []*lpOp {
-		var all [][]byte
+		type ref struct{ m, i int }
+		var all []ref
 		var per [][][]byte
 		for _, o := range c.ops {
 			if o.kind == "SEND" {
@@ -480,15 +487,17 @@ func genPermCase(r *rand.Rand, idx int, thorough bool) *lpCase {
 		}
 		switch r.Intn(4) {
 		case 0: // in order, message by message
-			for _, fs := range per {
-				all = append(all, fs...)
+			for m, fs := range per {
+				for i := range fs {
+					all = append(all, ref{m, i})
+				}
 			}
 		case 1: // every message reversed, round-robin interleaving
 			for i := 0; ; i++ {
 				any := false
-				for _, fs := range per {
+				for m, fs := range per {
 					if i < len(fs) {
-						all = append(all, fs[len(fs)-1-i])
+						all = append(all, ref{m, len(fs) - 1 - i})
 						any = true
 					}
 				}
@@ -497,14 +506,17 @@ func genPermCase(r *rand.Rand, idx int, thorough bool) *lpCase {
 				}
 			}
 		default:
-			for _, fs := range per {
-				all = append(all, fs...)
+			for m, fs := range per {
+				for i := range fs {
+					all = append(all, ref{m, i})
+				}
 			}
 			r.Shuffle(len(all), func(i, j int) { all[i], all[j] = all[j], all[i] })
 		}
 		res := make([]*lpOp, len(all))
-		for i, f := range all {
-			res[i] = &lpOp{kind: "RECV", frame: f}
+		for k, x := range all {
+			res[k] = &lpOp{kind: "RECV", frame: per[x.m][x.i]}
+			c.order = append(c.order, fmt.Sprintf("%d.%d", x.m, x.i))
 		}
 		return res
 	}
@@ -775,8 +787,37 @@ func readLpCases(path string) ([]*lpCase, error) {
 				o.n, _ = strconv.Atoi(kv["n"])
 			}
 			cur.ops = append(cur.ops, o)
+		case "ORDER":
+			// regenerate the frames from the sends of this run, in the recorded order; recorded RECV lines are skipped
+			order := append([]string{}, fs[1:]...)
+			cc := cur
+			cc.order = nil
+			cc.after = func(c *lpCase, r *rand.Rand) []*lpOp {
+				var per [][][]byte
+				for _, o := range c.ops {
+					if o.kind == "SEND" {
+						per = append(per, o.frames)
+					}
+				}
+				var res []*lpOp
+				for _, it := range order {
+					var m, i int
+					if _, err := fmt.Sscanf(it, "%d.%d", &m, &i); err == nil && m < len(per) && i < len(per[m]) {
+						res = append(res, &lpOp{kind: "RECV", frame: per[m][i]})
+						c.order = append(c.order, it)
+					}
+				}
+				return res
+			}
 		case "RECV":
-			cur.ops = append(cur.ops, &lpOp{kind: "RECV", frame: unhx(fs[1])})
+			if cur.after != nil {
+				continue
+			}
+			fr := "-"
+			if len(fs) > 1 {
+				fr = fs[1]
+			}
+			cur.ops = append(cur.ops, &lpOp{kind: "RECV", frame: unhx(fr)})
 		}
 	}
 	return res, sc.Err()
